@@ -141,7 +141,7 @@ class C11(IRProp):
     id = "C11"
     prop_file = "Properties/C11.v"
     tag = "c11"
-    genopts = dict()
+    genopts = dict(uneven_returns=0.3)
     hashseeds = ("0", "1", "7", "12345")
     trusted_base = IRProp.base_trusted + ["CPython's hash randomisation is exercised, not modelled: the seed sweep is the only check of iteration-order independence"]
     assumptions = []
